@@ -17,7 +17,7 @@ CHECKS = {
         level="exploration",
         runs=[dict(name="aws", target="h_aws", args=[], quick=["--k", "4"], thorough=["--k", "4"],
                    env={"TZ": "VFT-13"})],   # a non-UTC local zone: a signer that used local time would be seen
-        deadline=dict(quick=150, thorough=900),   # deep: ~200 s measured at load average 20 (about 1250 CPU-seconds; 2.5x that wall time when the machine is saturated by others)
+        deadline=dict(quick=300, thorough=1350),   # deep: ~200 s measured at load average 20 (about 1250 CPU-seconds; 2.5x that wall time when the machine is saturated by others)
         rule=("per variant every combination of input values in which at most K dimensions (key id, secret, region, method, bucket, path, "
               "service, op, body, expiry, clock) deviate from their default; a case is non-trivial when the signer succeeded and the independent "
               "verifier recomputed and matched the signature (distinct signatures are counted)"),
